@@ -8,6 +8,8 @@ import JominiModel.Props.C10
 #print axioms Jomini.Props.C10.C10_string_leaf
 #print axioms Jomini.Props.C10.C10_key_token
 #print axioms Jomini.Props.C10.C10_rgb_head
+#print axioms Jomini.Props.C10.C10_flat_end_to_end
+#print axioms Jomini.Props.C10.C10_flat_date_leaf
 #print axioms Jomini.Date.C10_date_leaf
 #print axioms Jomini.Date.C10_date_leaf_agree
 #print axioms Jomini.Date.C10_datehour_leaf
